@@ -84,7 +84,7 @@ pub fn run(ctx: &mut Ctx, rep: &mut Report) {
     if ctx.wants("encode") {
         rep.space(
             "encode",
-            "encode / encode_raw / encode_into through generic, sse2, avx2 and the three dispatcher arms + EncodedSequence::encode, DNA and protein, every length 0..=1100 (valid text, an invalid byte at the first / last position, upper-case letters outside the alphabet at L/4); whatever EncodedSequence::encode accepts is then striped, counted (count_symbols) and displayed",
+            "encode / encode_raw / encode_into through generic, sse2, avx2 and the three dispatcher arms + EncodedSequence::encode, DNA and protein, every length 0..=1100 (valid text, an invalid byte at the first / last position, upper-case letters outside the alphabet at L/4); whatever EncodedSequence::encode accepts is then striped, counted (count_symbols) and displayed; for L in {33,64,96} also encode_into with a destination 1/16/32 symbols too short",
         );
         for len in lens_dense(quick, true) {
             for alpha in 0..2 {
@@ -121,6 +121,15 @@ pub fn run(ctx: &mut Ctx, rep: &mut Report) {
                         let r = if alpha == 0 { c05::check_one::<Dna>(cfg, text) } else { c05::check_one::<Protein>(cfg, text) };
                         if let Err((_, msg)) = r {
                             memory_panic(rep, "C05", cfg.name(), &msg, || json!({"alphabet": a, "cfg": cfg.name(), "text_bytes": text}));
+                        }
+                        // the same text into a destination that is 1 / 16 / 32 symbols too short: whatever the call
+                        // answers (the library panics), it must not write past the destination
+                        if std::ptr::eq(text, &texts[0]) && (len == 33 || len == 64 || len == 96) {
+                            for short in [1usize, 16, 32] {
+                                if short <= len {
+                                    let _ = if alpha == 0 { cfgs::encode_into_short::<Dna>(cfg, text, len - short) } else { cfgs::encode_into_short::<Protein>(cfg, text, len - short) };
+                                }
+                            }
                         }
                         // USE whatever the encoder accepted: stripe it, count its symbols, print it (a symbol value
                         // outside the alphabet indexes past the K-entry tables)
